@@ -752,8 +752,8 @@ pub fn check_c13_text_in(text: &str, s: &NormalizerSettings, with_bom: bool, onl
             continue;
         }
         bytes.extend_from_slice(&body);
-        if identify_mark(&bytes).map(|e| e != enc).unwrap_or(false) {
-            continue; // the encoded text happens to start with another encoding's mark
+        if identify_mark(&bytes).map(|e| e != enc).unwrap_or(false) && is_multi_byte_encoding(&enc) {
+            continue; // the encoded text happens to start with another (multi-byte) encoding's mark
         }
         let mut r = restricted(s, &enc);
         r.enable_fallback = false;
